@@ -235,6 +235,8 @@ class Profile:
                             self.__dict__[n] = self._parse_bool(v)
                         else:
                             typ = type(self.__dict__[n])
+                            if typ is int and isinstance(v, float) and not v.is_integer():
+                                raise ValueError(v)  # (int() would silently truncate it)
                             self.__dict__[n] = typ(v)
                     except (ValueError, TypeError):
                         raise AldyException(f"Invalid parameter {n}: {v}") from None
